@@ -1,6 +1,4 @@
-import CattrsModel.Lemmas.ModesAgree
-import CattrsModel.Lemmas.Primitive
-import CattrsModel.GenInterp.Model
+import CattrsModel.Lemmas.GenInterpLeaf
 /-!
 # C06 core, structuring: on payloads whose class positions hold mappings the generated hooks (`gen = true`)
 and the interpretive paths (`gen = false`) accept the same inputs with equal results
@@ -28,6 +26,24 @@ theorem mapsAtCls_nt_some {c o xs} (h : iterItems o = some xs) :
   rw [mapsAtCls]; split
   · rename_i h'; rw [h] at h'; cases h'
   · rename_i xs' h'; rw [h] at h'; cases h'; rfl
+
+theorem mapsAtCls_coll_none {k t o} (h : iterItems o = Option.none) :
+    mapsAtCls w (.coll k t) o = mapsAtClsLf w (leafFuel w) (.coll k t) o := by
+  rw [mapsAtCls]; split
+  · rfl
+  · rename_i xs' h'; rw [h] at h'; cases h'
+
+theorem mapsAtCls_tup_none {ts o} (h : iterItems o = Option.none) :
+    mapsAtCls w (.tupleHet ts) o = mapsAtClsLf w (leafFuel w) (.tupleHet ts) o := by
+  rw [mapsAtCls]; split
+  · rfl
+  · rename_i xs' h'; rw [h] at h'; cases h'
+
+theorem mapsAtCls_nt_none {c o} (h : iterItems o = Option.none) :
+    mapsAtCls w (.nt c) o = mapsAtClsLf w (leafFuel w) (.nt c) o := by
+  rw [mapsAtCls]; split
+  · rfl
+  · rename_i xs' h'; rw [h] at h'; cases h'
 
 theorem mapsAtClsL_iff (t : Ty) (xs : List Obj) :
     mapsAtClsL w t xs = true ↔ ∀ x ∈ xs, mapsAtCls w t x = true := by
@@ -185,7 +201,10 @@ theorem struct_agree_aux (hws : w.SupU false)
       | coll k t' =>
         have hs' : t'.supU false = true := by simpa [Ty.supU] using hs
         cases hit : iterItems o with
-        | none => rw [stF_coll_none w c1 hit, stF_coll_none w c2 hit]
+        | none =>
+          rw [stF_coll_none w c1 hit, stF_coll_none w c2 hit]
+          rw [mapsAtCls_coll_none w hit] at hsc
+          exact Leaf.struct_agree w c1 c2 hws hg2 hts hf1 hs hsc
         | some xs =>
           rw [stF_coll_some w c1 hit, stF_coll_some w c2 hit]
           have hlt := iterItems_lt hit
@@ -195,7 +214,10 @@ theorem struct_agree_aux (hws : w.SupU false)
       | tupleHet ts =>
         simp only [Ty.supU, Bool.and_eq_true] at hs
         cases hit : iterItems o with
-        | none => rw [stF_tup_none w c1 hit, stF_tup_none w c2 hit]
+        | none =>
+          rw [stF_tup_none w c1 hit, stF_tup_none w c2 hit]
+          rw [mapsAtCls_tup_none w hit] at hsc
+          exact Leaf.struct_agree w c1 c2 hws hg2 hts hf1 (by simp [Ty.supU, hs.1, hs.2]) hsc
         | some xs =>
           rw [stF_tup_some w c1 hit, stF_tup_some w c2 hit]
           have hlt := iterItems_lt hit
@@ -238,7 +260,7 @@ theorem struct_agree_aux (hws : w.SupU false)
         · have htup2 : c2.tupleStrat = true := by rw [hts]; exact htup
           rw [stF_cls_tuple w c1 htup, stF_cls_tuple w c2 htup2]
           cases hit : iterItems o with
-          | none => rfl
+          | none => exact Leaf.struct_agree w c1 c2 hws hg2 hts hf1 hs (Or.inl htup)
           | some xs =>
             have hlt := iterItems_lt hit
             simp only []
@@ -283,7 +305,10 @@ theorem struct_agree_aux (hws : w.SupU false)
         | refuseResolve => rfl
       | nt c =>
         cases hit : iterItems o with
-        | none => rw [stF_nt_none w c1 hit, stF_nt_none w c2 hit]
+        | none =>
+          rw [stF_nt_none w c1 hit, stF_nt_none w c2 hit]
+          rw [mapsAtCls_nt_none w hit] at hsc
+          exact Leaf.struct_agree w c1 c2 hws hg2 hts hf1 hs hsc
         | some xs =>
           rw [stF_nt_some w c1 hit, stF_nt_some w c2 hit]
           have hlt := iterItems_lt hit
